@@ -103,6 +103,32 @@ def parse_trace(path, root):
     return calls
 
 
+def kill_window(path):
+    """(first, last) invocation numbers, within the thread that issues most of the operation's calls, of the calls in
+    KILL_SET made between the begin/end markers: strace's inject counter is per thread"""
+    kset = set(KILL_SET.split(","))
+    per, on, inside = {}, False, {}
+    for raw in open(path, errors="replace"):
+        m = re.match(r"^(\d+)\s+(?:<\.\.\. )?(\w+)", raw)
+        if not m:
+            continue
+        pid, name = m.group(1), m.group(2)
+        if "resumed>" in raw[:40]:
+            continue
+        if name not in kset:
+            continue
+        per[pid] = per.get(pid, 0) + 1
+        if "6e6f6e6578697374656e742d6330342d6d61726b6572" in raw.replace("\\x", ""):
+            on = "626567696e" in raw.replace("\\x", "")
+            continue
+        if on:
+            inside.setdefault(pid, []).append(per[pid])
+    if not inside:
+        return 1, 1
+    best = max(inside.values(), key=len)
+    return best[0], best[-1]
+
+
 class Replayer:
     """applies traced calls to a copy of the store"""
 
@@ -253,18 +279,21 @@ def run_case(ctx, binp, fx, pre, group, tag, kill_sample=0, rng=None):
             c.snaps.append(sn)
     c.replay_faithful = (proj_state(binp, rp) == traced_final)
     c.traced_equals_ref = strip_temp(traced_final) == strip_temp(c.ref_state)
-    # real kills for a sample of k: the directory must be one of the replayed prefix states
+    # real kills for a sample of k (strace counts per thread, so k only picks *some* point of the run): whatever the
+    # point, the directory a real SIGKILL leaves must be one of the replayed prefix states
     c.kills = []
+    lo, hi = kill_window(log)
     for _ in range(kill_sample):
-        k = rng.randint(1, max(1, c.ncalls))
+        k = rng.randint(lo, max(lo, hi))
         kd = os.path.join(wd, "kill-%d" % k)
         if os.path.exists(kd):
             continue
         shutil.copytree(base, kd)
-        subprocess.run(["strace", "-f", "-o", "/dev/null", "-e", "trace=none", "-e", "inject=%s:signal=SIGKILL:when=%d" % (KILL_SET, k),
+        subprocess.run(["strace", "-f", "-o", "/dev/null", "-e", "inject=%s:signal=SIGKILL:when=%d" % (KILL_SET, k),
                         binp, "op", kd, opf], capture_output=True, text=True, timeout=300, env=vlib.goenv())
         st = proj_state(binp, kd)
-        c.kills.append((k, any(st == s for s in c.states)))
+        c.kills.append((k, any(strip_temp(st) == strip_temp(x) for x in c.states), st != c.base_state and strip_temp(st) != strip_temp(c.states[-1])))
+        shutil.rmtree(kd, ignore_errors=True)
     return c
 
 
@@ -484,7 +513,10 @@ def run(ctx):
     ctx.assumptions = ["the registry is honest (serves bytes that hash to the digest it lists); dishonest registries are C03's subject",
                        "crash = death of the server process (SIGKILL) between two system calls; a torn single write() is not modelled",
                        "a crash during the start-up sequence itself is not enumerated"]
-    ctx.proof_stage(["Store"], "Store/Properties_C12.v", extra_targets=["Store/Corr.v"])
+    ctx.proof_stage(["Store"], "Store/Properties_C12.v", extra_targets=["Store/Corr.v"],
+                    expect_theorems=["C12_crash_sound", "C12_reachable_inv", "C12_idempotent_redo_partial", "C12_idempotent_redo_refuted"])
+    if not ctx.quick():
+        ctx.coqchk(["V.Store.Properties_C12"])
     binp = ctx.go_build("c04")
     if not binp:
         return
@@ -507,7 +539,7 @@ def run(ctx):
     def work(a):
         i, (k, pre, group) = a
         try:
-            return run_case(ctx, binp, fx, pre, group, "%d" % i)
+            return run_case(ctx, binp, fx, pre, group, "%d" % i, kill_sample=(1 if ctx.quick() else 6), rng=__import__("random").Random(ctx.seed * 7919 + i))
         except Exception as ex:  # reported below
             import traceback
             return ("error", traceback.format_exc(), k, pre, group)
@@ -549,6 +581,10 @@ def run(ctx):
         if not c.traced_equals_ref:
             ctx.mismatch("traced run and untraced run of the same operation end in different stores", hist, None)
             continue
+        for (kk, member, inside) in c.kills:
+            ctx.count("real-kill" + ("-mid-operation" if inside else ""))
+            if not member:
+                ctx.mismatch("a real SIGKILL (strace inject, when=%d) left a directory that is none of the replayed prefix states" % kk, hist, None)
         for (sig, what, i) in monitor_case(c):
             key = json.dumps(sig, sort_keys=True)
             if key in reported:
@@ -610,7 +646,11 @@ MANIFEST = {
                 "materialising every prefix, running the real start-up and the real operation again, and comparing all stages with the model.",
         "design_ref": "DESIGN.md section 5, C12",
     },
-    "level_note": "Trusted: Coq kernel/vm_compute; strace + the python replayer of traced calls (self-checked); process death only (no torn writes, no "
-                  "power-loss reordering); honest registry; crashes during start-up itself are not enumerated.",
+    "level_note": "Model = repaired code (fixes/C04-*.patch). C12_crash_sound is full strength over the model (any reachable store, any operation meeting "
+                  "its guard, any effect prefix). The redo clause is partial: proved for crash points that leave no torn manifest and for delete / copy / "
+                  "create FROM another model / pull with every layer downloadable; the full statement is refuted on the model (manifests are written in "
+                  "place; known findings C12-torn-manifest-*, C12-self-referential-create-not-idempotent). Trusted: Coq kernel/vm_compute; strace + the python "
+                  "replayer of traced calls (self-checked; real SIGKILLs sampled); process death only (no torn writes, no power-loss reordering); honest "
+                  "registry; crashes during start-up itself are not enumerated.",
     "technique": "Coq proof (invariant over effect prefixes) + crash-point enumeration on the real code by system-call trace replay",
 }
